@@ -20,7 +20,42 @@ type FNode struct {
 	Names []int   `json:"ns,omitempty"`
 }
 
-func nameOf(i int) string { return string(rune('a' + i)) }
+// nameScheme selects how the i-th name is written on the Go side for the case being run:
+// "" = a, b, c ...; "dummy" = dummy-1, dummy-2 ... (names that look like the package's own
+// auxiliary variables; the mirror identifies names with numbers, so nothing changes there).
+var nameScheme string
+
+func nameOf(i int) string {
+	if nameScheme == "dummy" {
+		return fmt.Sprintf("dummy-%d", i+1)
+	}
+	return string(rune('a' + i))
+}
+
+// mirrorNames rewrites the name comments of the mirror's DIMACS text (names a, b, c ...) in the
+// scheme of the case being run.
+func mirrorNames(a string) string {
+	if nameScheme == "" {
+		return a
+	}
+	lines := strings.Split(a, "\\n")
+	for i, l := range lines {
+		if strings.HasPrefix(l, "c ") && len(l) > 3 && l[3] == '=' && l[2] >= 'a' && l[2] <= 'z' {
+			lines[i] = "c " + nameOf(int(l[2]-'a')) + l[3:]
+		}
+	}
+	return strings.Join(lines, "\\n")
+}
+
+// indexOfName is the inverse of nameOf (-1 when s is not a name of the scheme).
+func indexOfName(s string, k int) int {
+	for i := 0; i < k; i++ {
+		if nameOf(i) == s {
+			return i
+		}
+	}
+	return -1
+}
 
 func (f FNode) toGo() bf.Formula {
 	kids := func() []bf.Formula {
@@ -153,8 +188,9 @@ func genFormula(r *Rng, k, depth int, pol int, uniquePositiveOnly bool) FNode {
 }
 
 type BfCase struct {
-	K int   `json:"k"` // names a.. (k of them)
-	F FNode `json:"f"`
+	K      int    `json:"k"` // names a.. (k of them)
+	F      FNode  `json:"f"`
+	Scheme string `json:"scheme,omitempty"` // see nameScheme
 }
 
 func genBfCase(r *Rng, tier string, positiveUnique bool) BfCase {
@@ -162,7 +198,11 @@ func genBfCase(r *Rng, tier string, positiveUnique bool) BfCase {
 	if r.Chance(1, 4) {
 		k = r.Range(5, 9)
 	}
-	return BfCase{K: k, F: genFormula(r, k, r.Range(1, 4), 1, positiveUnique)}
+	c := BfCase{K: k, F: genFormula(r, k, r.Range(1, 4), 1, positiveUnique)}
+	if r.Chance(1, 12) {
+		c.Scheme = "dummy"
+	}
+	return c
 }
 
 // genTwoUnique: a conjunction with two exactly-one groups of the same size (5..6 names) that
@@ -235,7 +275,18 @@ func init() {
 		ID: "C11",
 		Rule: "formula trees of depth 1..4 over 1..9 names built with package bf's constructors: variables, True/False, Not, And/Or of 0..3 sub-formulas, Implies, Eq, Xor, Unique groups of 0..9 distinct names at any polarity; bf.Solve is compared with the verified truth table (GS.sfSat / GS.SF.eval, standard semantics of each connective). Non-trivial = the formula is neither constant-free trivial nor a single literal (at least one binary connective or Unique group); distinct = distinct tree.",
 		Gens: []Gen{
-			{Name: "tree", Weight: 1, Make: func(r *Rng, tier string) interface{} { return genBfCase(r, tier, false) }},
+			{Name: "tree", Weight: 60, Make: func(r *Rng, tier string) interface{} { return genBfCase(r, tier, false) }},
+			{Name: "unique-large", Weight: 1, Make: func(r *Rng, tier string) interface{} {
+				c := genUniqueLarge(r, tier)
+				if r.Bool() { // a second literal: two names true is impossible, one true and one false is fine
+					l := FNode{Op: "v", Var: r.Intn(c.K)}
+					if r.Bool() {
+						l = FNode{Op: "n", Kids: []FNode{l}}
+					}
+					c.F.Kids = append(c.F.Kids, l)
+				}
+				return c
+			}},
 			// grid dimensions of Unique for every group size in a range: Go computes them with
 			// float64 square roots, the Lean mirror (GS.BfUnique.natDims) in N
 			{Name: "unique-dims", Enum: func(tier string) []interface{} {
@@ -264,9 +315,9 @@ func init() {
 	})
 	register(&Prop{
 		ID: "C12",
-		Rule: "formula trees as for C11 but with Unique groups only in positive positions; bf.Dimacs output is parsed (header counts, literal ranges, name comments) and compared with the formula over the whole truth table by the verified GS.exportEquiv: every formula model extends to a model of the export and every model of the export restricts to formula models, eliminated names being unconstrained. Exports with 15-48 variables over at most 9 names are judged by verified solving instead: for every assignment of the names, 'the formula holds' must equal 'the assignment extends to a model of the export', the extension question being answered by the Go solver and verified in Lean (Sat: the model is evaluated; Unsat: the RUP certificate is checked). Exports with up to 400 variables over 10..26 names (one exactly-one group of that many names) are judged the same way on the assignments with at most two names true or at most one false and a seeded sample of others. Larger exports are only checked for well-formedness and byte equality with the Lean mirror. Non-trivial = export with at least 2 clauses; distinct = distinct tree.",
+		Rule: "formula trees as for C11 (in half of the cases with Unique groups in positive positions only, where they produce auxiliary variables); bf.Dimacs output is parsed (header counts, literal ranges, name comments) and compared with the formula over the whole truth table by the verified GS.exportEquiv: every formula model extends to a model of the export and every model of the export restricts to formula models, eliminated names being unconstrained. Exports with 15-48 variables over at most 9 names are judged by verified solving instead: for every assignment of the names, 'the formula holds' must equal 'the assignment extends to a model of the export', the extension question being answered by the Go solver and verified in Lean (Sat: the model is evaluated; Unsat: the RUP certificate is checked). Exports with up to 400 variables over 10..26 names (one exactly-one group of that many names) are judged the same way on the assignments with at most two names true or at most one false and a seeded sample of others. Larger exports are only checked for well-formedness and byte equality with the Lean mirror. Non-trivial = export with at least 2 clauses; distinct = distinct tree.",
 		Gens: []Gen{
-			{Name: "tree", Weight: 30, Make: func(r *Rng, tier string) interface{} { return genBfCase(r, tier, true) }},
+			{Name: "tree", Weight: 30, Make: func(r *Rng, tier string) interface{} { return genBfCase(r, tier, r.Bool()) }},
 			{Name: "two-unique-groups", Weight: 1, Make: func(r *Rng, tier string) interface{} { return genTwoUnique(r, tier) }},
 			{Name: "unique-large", Weight: 1, Make: func(r *Rng, tier string) interface{} { return genUniqueLarge(r, tier) }},
 		},
@@ -291,6 +342,8 @@ func runBfSolveCase(o *Oracle, d json.RawMessage, oc *Outcome) {
 		oc.Fail("crash", "harness", "", "bad case: %v", err)
 		return
 	}
+	nameScheme = c.Scheme
+	defer func() { nameScheme = "" }()
 	oc.Key = keyOf(c)
 	if c.F.Op == "dims" {
 		runUniqueDims(o, &c, oc)
@@ -324,12 +377,28 @@ func runBfSolveCase(o *Oracle, d json.RawMessage, oc *Outcome) {
 		var buf bytes.Buffer
 		if err := bf.Dimacs(f, &buf); err == nil {
 			oc.Corr++
-			if got := strings.ReplaceAll(buf.String(), "\n", "\\n"); got != a {
+			if got := strings.ReplaceAll(buf.String(), "\n", "\\n"); got != mirrorNames(a) {
 				oc.Fail("corr", "dimacs-mirror", "bf.Solve", "the CNF translation differs from its Lean mirror: Go %q, mirror %q for %s", got, a, f.String())
 			}
 		}
 	}
-	truth := o.Ask(fmt.Sprintf("bfsat %d | %s", c.K, wire))
+	var truth string
+	if c.K > 16 || (c.K > 9 && c.F.Op == "a" && len(c.F.Kids) > 0 && c.F.Kids[0].Op == "u" && len(c.F.Kids[0].Names) == c.K) {
+		// too many names for the truth table: the formula is a conjunction whose first member is an
+		// exactly-one group over all the names, so its only candidate models are the assignments with
+		// a single name true; each is evaluated by the verified GS.SF.eval
+		oc.Tag("verdict-by-candidate-models")
+		truth = "0"
+		for i := 0; i < c.K && truth == "0"; i++ {
+			vals := make([]bool, c.K)
+			vals[i] = true
+			if o.Ask(fmt.Sprintf("bfeval %s | %s", wire, encBools(vals))) == "1" {
+				truth = "1"
+			}
+		}
+	} else {
+		truth = o.Ask(fmt.Sprintf("bfsat %d | %s", c.K, wire))
+	}
 	m := bf.Solve(f)
 	entry := "bf.Solve"
 	if m == nil {
@@ -359,6 +428,8 @@ func runBfDimacsCase(o *Oracle, d json.RawMessage, oc *Outcome) {
 		oc.Fail("crash", "harness", "", "bad case: %v", err)
 		return
 	}
+	nameScheme = c.Scheme
+	defer func() { nameScheme = "" }()
 	oc.Key = keyOf(c)
 	f := c.F.toGo()
 	oc.Sample = f.String()
@@ -376,7 +447,7 @@ func runBfDimacsCase(o *Oracle, d json.RawMessage, oc *Outcome) {
 	if a := o.Ask("bfdimacs " + c.F.Wire()); a != "unsupported" {
 		oc.Corr++
 		oc.Tag("dimacs-mirror-compared")
-		if got := strings.ReplaceAll(buf.String(), "\n", "\\n"); got != a {
+		if got := strings.ReplaceAll(buf.String(), "\n", "\\n"); got != mirrorNames(a) {
 			oc.Fail("corr", "dimacs-mirror", entry, "Go wrote %q, the Lean mirror %q for %s", got, a, f.String())
 		}
 	}
@@ -409,11 +480,11 @@ func runBfDimacsCase(o *Oracle, d json.RawMessage, oc *Outcome) {
 				oc.Fail("spec", "names-distinct", entry, "names %q and %q share index %d", prev, kv[0], v)
 			}
 			usedIdx[v] = kv[0]
-			if len(kv[0]) == 1 && int(kv[0][0]-'a') < c.K {
-				if idx[int(kv[0][0]-'a')] != 0 {
+			if ni := indexOfName(kv[0], c.K); ni >= 0 {
+				if idx[ni] != 0 {
 					oc.Fail("spec", "names-distinct", entry, "name %q listed twice", kv[0])
 				}
-				idx[int(kv[0][0]-'a')] = v
+				idx[ni] = v
 			} else {
 				oc.Fail("spec", "well-formed", entry, "name comment for unknown name %q", kv[0])
 			}
